@@ -29,6 +29,7 @@ pub struct World {
     vote_cache: HashMap<String, ValidatedVote>,
     cert_cache: HashMap<String, ValidatedCert>,
     verdict_cache: HashMap<Vec<u8>, bool>,
+    validated_cache: HashMap<Vec<u8>, Option<ValidatedCert>>,
 }
 
 pub fn hash_bytes(h: &BlockHash) -> Vec<u8> {
@@ -70,6 +71,7 @@ impl World {
             vote_cache: HashMap::new(),
             cert_cache: HashMap::new(),
             verdict_cache: HashMap::new(),
+            validated_cache: HashMap::new(),
         };
         w.hash_by_name
             .insert("G".to_string(), GENESIS_BLOCK_HASH);
@@ -264,6 +266,17 @@ impl World {
         let ok = ValidatedCert::try_new(c.clone(), &self.epoch).is_ok();
         self.verdict_cache.insert(bytes, ok);
         ok
+    }
+
+    /// `ValidatedCert::try_new` as a receiver would run it (cached by encoding)
+    pub fn validate_cert(&mut self, c: &Cert) -> Option<ValidatedCert> {
+        let bytes = Self::cert_bytes(c);
+        if let Some(v) = self.validated_cache.get(&bytes) {
+            return v.clone();
+        }
+        let r = ValidatedCert::try_new(c.clone(), &self.epoch).ok();
+        self.validated_cache.insert(bytes, r.clone());
+        r
     }
 
     pub fn vote_valid(&mut self, v: &Vote) -> bool {
